@@ -766,3 +766,106 @@ def nested_bodies(facts, body):
 def site_str(body, bb):
     t = body.term(bb)
     return "%s (%s, bb%d)" % (loc_str(t.get("fnloc") or t.get("loc")), body.path, bb)
+
+
+# --------------------------------------------------------------------------- interprocedural expansion
+
+class Inter:
+    """Expand closure upvars and function parameters to the expressions bound at the creation / call
+    sites inside the workspace (P4: closure upvars + callee parameters, depth-bounded)."""
+
+    def __init__(self, facts, maxdepth=6):
+        self.facts = facts
+        self.maxdepth = maxdepth
+        self.tracers = {}
+        self.index = None
+        self._creation = {}
+
+    def tracer(self, body):
+        t = self.tracers.get(body.dp)
+        if t is None:
+            t = Tracer(self.facts, body)
+            self.tracers[body.dp] = t
+        return t
+
+    def call_index(self):
+        if self.index is None:
+            self.index = CallIndex(self.facts)
+        return self.index
+
+    def creation_site(self, body):
+        """(parent_body, operands) of the Aggregate that creates this closure/coroutine."""
+        if body.dp in self._creation:
+            return self._creation[body.dp]
+        res = None
+        parent = self.facts.by_dp.get(body.parent) if body.parent else None
+        if parent is not None:
+            for blk in parent.blocks:
+                for s in blk["stmts"]:
+                    if s["k"] == "Assign" and s["rv"]["k"] == "Aggregate":
+                        a = s["rv"]["agg"]
+                        if a["a"] in ("Closure", "Coroutine", "CoroutineClosure") and a["def"] == body.dp:
+                            res = (parent, s["rv"]["ops"])
+        self._creation[body.dp] = res
+        return res
+
+    def expand(self, body, node, depth=0, seen=None):
+        """Return a node where upvar reads / params are replaced (phi of call-site bindings)."""
+        if depth > self.maxdepth:
+            return node
+        memo = {}
+
+        def rec(n):
+            key = id(n)
+            if key in memo:
+                return memo[key]
+            memo[key] = n
+            r = self._expand1(body, n, depth, rec)
+            memo[key] = r
+            return r
+        return rec(node)
+
+    def _expand1(self, body, n, depth, rec):
+        k = n.kind
+        if k == "field":
+            base = n[1]
+            b2 = base
+            while b2.kind in ("deref", "ref"):
+                b2 = b2[1]
+            if b2.kind == "param" and b2[1] == 1 and body.kind == "Closure" and n[2].isdigit():
+                cs = self.creation_site(body)
+                if cs is not None:
+                    parent, ops = cs
+                    i = int(n[2])
+                    if i < len(ops):
+                        pn = self.tracer(parent).operand(ops[i])
+                        return self.expand(parent, pn, depth + 1)
+            return N("field", rec(n[1]), n[2], n[3])
+        if k == "param":
+            if body.kind in ("Fn", "AssocFn") and depth < self.maxdepth:
+                sites = self.call_index().callers.get(body.dp, [])
+                outs = []
+                for (cb, bi, t) in sites[:8]:
+                    i = n[1] - 1
+                    if i < len(t["args"]):
+                        an = self.tracer(cb).operand(t["args"][i])
+                        outs.append(self.expand(cb, an, depth + 1))
+                if outs:
+                    outs = _dedup(outs)
+                    return outs[0] if len(outs) == 1 else N("phi", tuple(outs))
+            return n
+        if k in ("ref", "deref", "un", "discr", "repeat"):
+            return N(k, rec(n[1]), *n[2:])
+        if k == "cast":
+            return N("cast", rec(n[1]), n[2], n[3])
+        if k == "downcast":
+            return N("downcast", rec(n[1]), n[2])
+        if k == "bin":
+            return N("bin", n[1], rec(n[2]), rec(n[3]))
+        if k == "call":
+            return N("call", n[1], n[2], tuple(rec(a) for a in n[3]), n[4], n[5], n[6])
+        if k == "agg":
+            return N("agg", n[1], n[2], tuple((f, rec(v)) for f, v in n[3]))
+        if k == "phi":
+            return N("phi", tuple(_dedup([rec(x) for x in n[1]])))
+        return n
